@@ -35,7 +35,11 @@ func main() {
 	list := flag.Bool("list", false, "list properties with rule sets")
 	dump := flag.Bool("dump", false, "print every obligation")
 	dbg := flag.String("debug", "", "developer dumps (taint, ...)")
+	refPatch := flag.String("refactoring", "", "unified diff of a behaviour-preserving change: overlay it and list every rule that reports (all rule sets, or -property)")
 	flag.Parse()
+	if *refPatch != "" {
+		os.Exit(runRefactoringMode(*repo, *verif, *refPatch, *prop))
+	}
 	if *dbg != "" {
 		p, err := Load(LoadConfig{Repo: *repo})
 		if err != nil {
@@ -136,6 +140,7 @@ func main() {
 		}
 		if *tier == "thorough" {
 			runSeedCanaries(rs, *repo, *verif, rep)
+			runRefactoringCanaries(rs, *repo, *verif, rep)
 		}
 	}()
 	if *dump {
